@@ -105,6 +105,10 @@ def make_case(key, origin, expr, vkey, **extra):
         c["s"] = None
         c["render_error"] = f"{type(e).__name__}: {e}"[:300]
         return c
+    try:
+        c["clashes"] = {nm: [repr(o) for o in objs] for nm, objs in rc.name_clashes(expr, "latex").items()}
+    except Exception:  # pylint: disable=broad-except
+        c["clashes"] = {}
     rd = TexReader()
     try:
         c["sides"] = rd.read_top(expr)
@@ -198,10 +202,21 @@ def run(ctx):
         c = make_case(f"source#{idx}", "source", e, None, sample_index=idx, srepr=sympy.srepr(e))
         c["vkey"] = f"C18:source:{c['s']}" if c["s"] is not None else f"C18:source-raises:{sympy.srepr(e)[:300]}"
         cases.append(c)
+    # (iv) curated shape classes, every tier and seed
+    for label, e in rc.curated_expressions(sample_symbols()):
+        c = make_case(f"curated:{label}", "curated", e, f"C18:curated:{label}", srepr=sympy.srepr(e))
+        cases.append(c)
+    ctx.coverage["curated_cases"] = sum(1 for c in cases if c["origin"] == "curated")
     ctx.log(f"{len(cases)} cases built")
 
     live = []
     for c in cases:
+        for nm, objs in (c.get("clashes") or {}).items():
+            ctx.violation(f"C18:name-clash:{c['key']}:{nm}", f"{len(objs)} different symbols of {c['key']} are shown under "
+                f"the same LaTeX display name {nm!r}: read with one value per printed name the rendering {c['s']!r} cannot "
+                f"denote the expression for all values", {"kind": "violation", "item": c["key"], "origin": c["origin"],
+                "shared_name": nm, "symbols": objs, "rendering": c["s"], "original": str(c["expr"]),
+                "sample_index": c.get("sample_index")}, found_input=True)
         for raw, printed, why in c.get("mangled") or []:
             ctx.violation(f"C18:name:{c['key']}:{raw}", f"symbol with display_latex {raw!r} is printed as {printed!r} in "
                 f"{c['key']} ({why})", {"kind": "violation", "item": c["key"], "origin": c["origin"], "display_latex": raw,
@@ -379,6 +394,10 @@ def replay(ctx, rep):
             if idx == rep.get("sample_index"):
                 expr = e
                 break
+    elif rep.get("origin") == "curated" or item.startswith("curated:"):
+        for label, e in rc.curated_expressions(sample_symbols()):
+            if f"curated:{label}" == item:
+                expr = e
     else:
         items, _ = rc.catalogue_items()
         for it in items:
@@ -390,6 +409,12 @@ def replay(ctx, rep):
     c = make_case(item, rep.get("origin", "catalogue"), expr, rep.get("key"))
     print("original   :", expr)
     print("rendering  :", c["s"], "(recorded:", rep.get("rendering"), ")")
+    clash = 0
+    for nm, objs in (c.get("clashes") or {}).items():
+        print(f"{len(objs)} different symbols are shown under the same name {nm!r}: {objs}")
+        clash = 1
+    if clash:
+        return 1
     if c["s"] is None:
         print("latex_str raises:", c.get("render_error"))
         return 1
